@@ -2,6 +2,7 @@ import Nstd.Life.LemmasAll
 import Nstd.Life.LemmasAlias
 import Nstd.Life.LemmasOps
 import Nstd.Life.LemmasSrc
+import Nstd.Life.LemmasBlk
 /-
   Property theorems of the Life area.
 
@@ -37,6 +38,14 @@ theorem lifecycle_ok (ops : List Op) :
     (so no misuse has happened yet), whether or not the destructors follow. -/
 theorem lifecycle_prefix_ok (ops : List Op) : ∃ c, Chk.init.run (run init ops).log = some c :=
   ⟨_, trace_from_empty (reach_ok ops).2⟩
+
+/-- C04 `blocks_released_only_by_destructor`.  In every reachable state, every micro step other than a
+    container destructor (`destroy`, `aDestroy`: ~List, ~Map, ..., ~Array, also as part of re-construction) and
+    `Array::reserve` (which moves the elements and releases the old storage) keeps every allocated block
+    allocated: insert, remove, clear, swap, assignment never free memory (clear keeps the blocks for reuse). -/
+theorem blocks_released_only_by_destructor (ops : List Op) (m : Micro) (hm : m.releases = false) (st' : State)
+    (he : exec (run init ops) m = some st') : ∀ b n, (run init ops).blk b = some n → st'.blk b = some n :=
+  exec_blkKept (reach_ok ops).1 m hm he
 
 /-- a concrete history with alias operations on several containers (evaluated by the kernel): the destructors
     are defined for it, as `lifecycle_ok` says for every history -/
